@@ -4,8 +4,8 @@ from .histcommon import *
 ID = 'C05'
 LEVEL = 'model_checking'
 BUDGET = {'quick': 290, 'thorough': 3300}
-BOUNDS = {'quick': 'all histories of depth 2 over a 44-operation alphabet from 4 start states (fresh, declared, populated, loaded), views checked after every successful call; frame payloads symbolic; rates from {0,50,100}/{0,100,200}',
-          'thorough': 'all histories of depth 3 (4 x 44^3 = 340k histories; capped by the wall budget, the cut is reported)'}
+BOUNDS = {'quick': 'all histories of depth 2 over a 47-operation alphabet from 4 start states (fresh, declared, populated, loaded), views checked after every successful call; frame payloads symbolic; rates from {0,50,100}/{0,100,200,300}; plus a kernel with FREE rates: POINT:RATE any float in [1,2000], ANALOG:RATE set twice to any float in [0,20000] with 1..3 declared channels, header analog view vs ANALOG:USED decided by z3 (FP theory for the ratio)',
+          'thorough': 'all histories of depth 3 (4 x 47^3 = 415k histories; capped by the wall budget, the cut is reported)'}
 OUTSIDE = 'histories deeper than the bound; frames whose sub-frame count deviates from the header (undocumented deviation, outside the property\'s quantifier); rates other than the enumerated ones'
 ASSUMPTIONS = ['a frame is "filled" when it holds at least one point or one sub-frame (gap frames created by an indexed store beyond the end are not)']
 RULE = 'one evaluation = one history (path); non-trivial = the history has at least one successful mutating call with symbolic payload'
@@ -72,8 +72,32 @@ def per_step(k, before, call, after, st, sec):
     if call['call.outcome'] != 0: return []          # refused calls are C10's subject
     return views(obsmodel.parse_dump(after), 'views', 'after %s' % OP_NAMES.get(call['call.op']))
 
-def jobs(tier, seed): return hist_jobs(tier, seed, finish=0)
-def run_job(engine, job): return explore(engine, job, ID, per_step)
+def jobs(tier, seed):
+    out = hist_jobs(tier, seed, finish=0)
+    for n in ((1, 2, 3) if tier == 'quick' else (1, 2, 3, 4, 5)):
+        out.append({'entry': 'h_rates', 'harness': 'h_hist.cpp', 'name': 'rates', 'cfg': {'channels': n, 'steps': 2}})
+    return out
+
+def rate_obligations(sec, job, st):
+    O = []; k = 1
+    while True:
+        sfx = '' if k == 1 else '#%d' % k
+        if 'after' + sfx not in sec: break
+        a = dict(sec['after' + sfx]); k += 1
+        sub = a['hdr.nbAnalogByFrame']; used = a['ANALOG:USED']; meas = a['hdr.nbAnalogsMeasurement']
+        w = lambda v: tobv(v, 64)
+        # whenever the header sub-frame count is at least one: channel count = ANALOG:USED and samples per frame = channels x sub-frames
+        ge1 = z3.UGE(w(sub), 1)
+        O.append(Obl('rates/channels-vs-used', simp(z3.And(ge1, w(a['hdr.nbAnalogs']) != w(used))), 'call %d: header channel count differs from ANALOG:USED while the sub-frame count is >= 1' % (k - 1)))
+        O.append(Obl('rates/measurements', simp(z3.And(ge1, w(meas) != w(used) * w(sub))), 'call %d: analog samples per frame differs from channels x sub-frames' % (k - 1)))
+        O.append(Obl('rates/frame-rate', neq(a['hdr.frameRate'], a['POINT:RATE']), 'call %d: header rate differs from POINT:RATE' % (k - 1)))
+    for o in O:
+        if is_c(o.bad): o.bad = bool(o.bad)
+    return O
+
+def run_job(engine, job):
+    if job['name'] == 'rates': return std_run(engine, job, rate_obligations, 'rates.end', ID, 'rates', wall=250)
+    return explore(engine, job, ID, per_step)
 
 def native_confirm(nat, v):
     out, sec = native_sections(nat, v['replay'])
